@@ -101,17 +101,33 @@ def _sections(f, sw):
     return out
 
 
-def _ctx(f, n, stop, labels):
+def _cond_version(f, cond, if_node, stop, first_line):
+    """How many times the locals a condition reads were (re)assigned in this section before the `if`: two tests with the
+    same text are the same condition only if nothing they read was changed in between."""
+    names = {y["n"] for y in walk(cond) if y["k"] == "DeclRefExpr" and y.get("dk") == "Var"}
+    if not names:
+        return ""
+    cnt = 0
+    for x in walk(stop):
+        if (x["k"] == "BinaryOperator" and x["op"] == "=" or x["k"] == "CompoundAssignOperator" or
+                (x["k"] == "UnaryOperator" and x["op"] in ("post++", "pre++", "post--", "pre--"))) and key(x["c"][0]) in names:
+            if first_line <= x["l"] < if_node["l"] or (x["l"] == if_node["l"] and x.get("b", 0) < if_node.get("b", 0)):
+                cnt += 1
+    return "" if cnt == 0 else "@%d" % cnt
+
+
+def _ctx(f, n, stop, labels, first_line=0):
     ctx = []
     cur = n
     for a in f.ancestors(n):
         if a is stop:
             break
         if a["k"] == "IfStmt":
+            ver = _cond_version(f, a["c"][0], a, stop, first_line)
             if a["c"][1] is not None and any(x is cur for x in walk(a["c"][1])):
-                ctx.append((resolve_key(f, a["c"][0]), True))
+                ctx.append((resolve_key(f, a["c"][0]) + ver, True))
             elif len(a["c"]) > 2 and a["c"][2] is not None and any(x is cur for x in walk(a["c"][2])):
-                ctx.append((resolve_key(f, a["c"][0]), False))
+                ctx.append((resolve_key(f, a["c"][0]) + ver, False))
         elif a["k"] == "CaseStmt" and (a.get("en") or str(a.get("v"))) not in labels:
             ctx.append(("case", a.get("en") or str(a.get("v"))))
         elif a["k"] == "DefaultStmt" and "default" not in labels:
@@ -200,7 +216,7 @@ def r_balance(P, chk, units=None):
                                     items += [(k, nm, hx) for k, nm in _events_in_literal(hs, mode)]
                     if not items:
                         continue
-                    cx = _ctx(f, c, sw, labels)
+                    cx = _ctx(f, c, sw, labels, sect[0]["l"])
                     for k, nm, extra in items:
                         if nm not in closed:
                             continue
